@@ -586,6 +586,10 @@ fn observe(elab: &crate::term::Term, budget: u64) -> Result<Obs, String> {
 /// A program around the boundary of the definition-order rule (see C05's order-rule part) that
 /// satisfies the rule, as a base for rewrites at the roots of its definitions.
 fn order_base(ch: &mut Ch) -> Option<prog::Program> {
+    (0..8).find_map(|_| order_base_once(ch))
+}
+
+fn order_base_once(ch: &mut Ch) -> Option<prog::Program> {
     let mut counter = 0;
     let depth = ch.pick(2);
     let text = crate::checks::c05::order_group(ch, depth, &[], &mut counter);
@@ -602,7 +606,7 @@ fn order_base(ch: &mut Ch) -> Option<prog::Program> {
 }
 
 fn rewrite_case(ctx: &Ctx, ch: &mut Ch) -> Outcome {
-    let order_family = ch.chance(1, 5);
+    let order_family = ch.chance(1, 3);
     PREFER_DEF_ROOTS.with(|c| c.set(order_family));
     let r = rewrite_case_inner(ctx, ch, order_family);
     PREFER_DEF_ROOTS.with(|c| c.set(false));
@@ -664,7 +668,9 @@ fn rewrite_case_inner(ctx: &Ctx, ch: &mut Ch, order_family: bool) -> Outcome {
     let (ta, tb) = (sast::print_plain(&base), sast::print_plain(&rewritten.flatten()));
     let input = format!("{ta}   ==>   {tb}   [{}]", labels.join(", "));
     ctx.announce(false, None, &input);
-    let budget = crate::checks::c02::step_budget(ctx.tier);
+    // The functions of an order-family group call each other freely and often do not terminate:
+    // a small budget is enough to tell (acceptance is what these cases are about).
+    let budget = if order_family { 1500 } else { crate::checks::c02::step_budget(ctx.tier) };
     let r = pipe::with_two_checked(&ta, &tb, |a, b| -> Result<&'static str, Failure> {
         let Some((ea, tya)) = a else { return Ok("original not accepted (outside the domain)") };
         // Programs accepted with holes that are never solved are the subject of a recorded finding.
@@ -760,7 +766,7 @@ pub fn def(tier: Tier) -> CheckDef {
     CheckDef {
         id: "C19",
         level: "exploration",
-        rule: "accepted type-directed generated programs (a quarter annotation-erased), each subjected to 1-4 rewrites at generated sites: r1 consistent renaming of a subset of binders to fresh names from ASCII / keyword-like / non-ASCII pools; r2 redundant parentheses around any node; r3 an unused definition (value and non-value, annotated or not) wrapped around any node or inserted at any position of an existing group; r4 a node named by a definition (with and without annotation); r5 a node wrapped in an immediately applied annotated identity (at the root or where the type is evident); r6 `if true then e else e`; r7 two adjacent function definitions that do not mention each other swapped; a fifth of the base programs are groups at the boundary of the definition-order rule (functions in value and non-value form mentioning earlier, later and nested definitions) rewritten mostly at the roots of their definitions, the rewritten program being in the domain when it still satisfies the rule as documented (R-order); oracle (no reference semantics) = the rewritten program is accepted, gram's own conversion judges the two reported types equal, and the `step` loop ends the same way (same literal / same kind; structurally identical value for parentheses-only rewrites); `gram check` / `gram run` exit status and printed value compared on a sample; non-trivial = at least one rewrite site below the root; per-rewrite counts are in the evidence; distinct by program pair",
+        rule: "accepted type-directed generated programs (a quarter annotation-erased), each subjected to 1-4 rewrites at generated sites: r1 consistent renaming of a subset of binders to fresh names from ASCII / keyword-like / non-ASCII pools; r2 redundant parentheses around any node; r3 an unused definition (value and non-value, annotated or not) wrapped around any node or inserted at any position of an existing group; r4 a node named by a definition (with and without annotation); r5 a node wrapped in an immediately applied annotated identity (at the root or where the type is evident); r6 `if true then e else e`; r7 two adjacent function definitions that do not mention each other swapped; a third of the base programs are groups at the boundary of the definition-order rule (functions in value and non-value form mentioning earlier, later and nested definitions) rewritten mostly at the roots of their definitions, the rewritten program being in the domain when it still satisfies the rule as documented (R-order); oracle (no reference semantics) = the rewritten program is accepted, gram's own conversion judges the two reported types equal, and the `step` loop ends the same way (same literal / same kind; structurally identical value for parentheses-only rewrites); `gram check` / `gram run` exit status and printed value compared on a sample; non-trivial = at least one rewrite site below the root; per-rewrite counts are in the evidence; distinct by program pair",
         assumptions: vec!["int / bool results of `gram run` print identically for both programs (no names involved)"],
         idle_limit_s: 180,
         needs_cli: true,
